@@ -2502,6 +2502,12 @@ func unmarshalUDT(info TypeInfo, data []byte, value interface{}) error {
 			}
 		}
 
+		if f.IsValid() && f.CanAddr() && !f.CanSet() {
+			// an unexported field of that name is not ours to fill (marshalUDT
+			// does not read it either)
+			continue
+		}
+
 		if !f.IsValid() || !f.CanAddr() {
 			return unmarshalErrorf("cannot unmarshal %s into %T: field %v is not valid", info, value, e.Name)
 		}
